@@ -10,6 +10,9 @@ Fields == {"e_lfanew", "NumberOfSections", "SizeOfOptionalHeader", "Magic", "Num
            "sec0.PointerToRawData", "sec0.SizeOfRawData", "sec1.PointerToRawData", "sec1.SizeOfRawData",
            "dd4.VirtualAddress", "dd4.Size", "cert0.dwLength", "cert0.wRevision", "cert0.wCertificateType", "PointerToSymbolTable", "NumberOfSymbols"}
 Bases == {"unsigned64", "signed64", "signed32", "twosigs64"}
+(* an image that carries forty well-formed signatures by somebody else (as large together as the image content): the cost of verifying it *)
+(* must stay proportional to its size - the image is hashed once, not once per signature                                                  *)
+ManySigs == {<<>>, <<[f |-> "cert0.wRevision", v |-> "0"]>>}
 Single == {<<[f |-> f, v |-> v]>> : f \in Fields, v \in Vals}
 Pairs == {<<[f |-> f, v |-> v], [f |-> g, v |-> w]>> : f \in {"SizeOfHeaders", "dd4.Size", "sec0.SizeOfRawData", "cert0.dwLength"}, v \in {"0", "FILELEN+1", "HUGE", "HALF"},
                                                        g \in {"dd4.VirtualAddress", "sec1.PointerToRawData", "dd4.Size", "NumberOfSections"}, w \in {"0", "FILELEN", "HUGE", "9"}}
@@ -23,8 +26,10 @@ CertKinds == {<<[f |-> "cert0.wCertificateType", v |-> t], [f |-> "cert0.dwLengt
              \cup {<<[f |-> "cert0.wCertificateType", v |-> t], [f |-> "cert0.dwLength", v |-> d], [f |-> "dd4.Size", v |-> Al8[d]], [f |-> "truncate", v |-> "CERT+" \o Al8[d]]>> :
                       t \in {"3825", "3824", "2", "1"}, d \in {"8", "9", "16", "23", "24", "25", "40"}}
 Alias == {<<[f |-> "sections.alias", v |-> v]>> : v \in {"1", "2", "16", "200", "1500"}}   \* that many further section headers claim the raw data of section 0
-Init == done = FALSE /\ \E b \in Bases, o \in Single \cup Trunc \cup CertEnd \cup CertKinds \cup Alias \cup (IF Tier = "t" THEN Pairs ELSE {p \in Pairs : p[1].v = "HUGE" \/ p[2].v = "HUGE"}) :
-           cfg = [base |-> b, overrides |-> o]
+Classes == Single \cup Trunc \cup CertEnd \cup CertKinds \cup Alias \cup (IF Tier = "t" THEN Pairs ELSE {p \in Pairs : p[1].v = "HUGE" \/ p[2].v = "HUGE"})
+Init == /\ done = FALSE
+        /\ \/ \E o \in ManySigs : cfg = [base |-> "manysigs64", overrides |-> o]
+           \/ \E b \in Bases, o \in Classes : cfg = [base |-> b, overrides |-> o]
 Next == ~done /\ done' = TRUE /\ UNCHANGED cfg
 Emit == done => PrintT(ToJson(cfg))
 =============================================================================
